@@ -231,11 +231,11 @@ def prefix7(k):
 # ---------------------------------------------------------------- cases
 def cases(tier, seed, i, n):
     def allcases():
-        ctxs = ['fresh', 'infrag', 'deflate', 'unknown-ext']
+        ctxs = ['fresh', 'infrag', 'deflate', 'unknown-ext', 'unsolicited-deflate']
         for ctx in ctxs:
             for b0 in range(256):
                 yield dict(kind='hdr', ctx=ctx, b0=b0)
-        yield gen.mark('all 65536 two-byte headers x 4 contexts (fresh, in-fragment, deflate, unknown-extension handshake)')
+        yield gen.mark('all 65536 two-byte headers x 5 contexts (fresh, in-fragment, deflate, unknown-extension handshake, unsolicited permessage-deflate in the reply)')
         vps = violation_params()
         # position sweep over the fixed prefix
         for k in range(8):
@@ -466,8 +466,16 @@ def one_header(case, acc, b0, b1, length, infrag, z):
             body = key4 + refws.xor_mask(key4, payload)
     pre = refws.enc_frame(1, b'X', fin=0) if infrag else b''
     stream = pre + hdr + body
-    w = H.World(H.hs_server([('raw', stream), ('eof',)], HS_DEFLATE if z else HS_PLAIN))
-    run = H.drive(w, ws_kwargs=dict(compress=True) if z else None, connect_kwargs=dict(ping_rate=0))
+    ctx = case.get('ctx')
+    hs, wskw = (HS_DEFLATE, dict(compress=True)) if z else (HS_PLAIN, None)
+    if ctx == 'unknown-ext':
+        # the reply lists only extensions the client does not know: nothing is negotiated
+        hs, wskw = HS_UNKNOWN_EXT, dict(compress=True)
+    elif ctx == 'unsolicited-deflate':
+        # the reply lists permessage-deflate although the client (compress=False) never offered it: not negotiated
+        hs, wskw = HS_DEFLATE, dict(compress=False)
+    w = H.World(H.hs_server([('raw', stream), ('eof',)], hs))
+    run = H.drive(w, ws_kwargs=wskw, connect_kwargs=dict(ping_rate=0))
     acc.executed()
     evs = [e for e in run.events if e.name != 'poll']
     names = [e.name for e in evs]
